@@ -286,6 +286,9 @@ class ExprMixin:
                     return V(("int",), q)
                 return V(("int",), a - b * q)
             if isinstance(op, ast.Pow):
+                a_, b_ = z3.simplify(a), z3.simplify(b)
+                if z3.is_int_value(a_) and z3.is_int_value(b_) and 0 <= b_.as_long() <= 64:
+                    return V(("int",), z3.IntVal(a_.as_long() ** b_.as_long()))
                 raise Unsupported("int power")
             raise Unsupported(f"int op {type(op).__name__}")
         lf, rf = st.to_float(l), st.to_float(r)
